@@ -52,6 +52,30 @@ CHECKS = {
             dict(harness="C11_Expand"),
         ],
     },
+    "C13": {
+        "quick": [
+            dict(harness="C13_Table", cover=["fail", "assign", "assign-positional"], bounds="8 table operators x {unset,null,non-null} x {variable, positional} x {unquoted, double-quoted} x nounset on/off; value 2 symbolic bytes, word 0..2 symbolic bytes followed by a nested ${q=}"),
+            dict(harness="C13_Plain", cover=["nounset-error"], bounds="$p ${p} ${#p} x {variable, positional} x 3 states x nounset on/off, value 2 symbolic bytes"),
+            dict(harness="C13_Length", bounds="${#p} on a value with 2- and 3-byte characters and one symbolic byte"),
+            dict(harness="C13_Special", bounds="8 special parameters x 0..2 positional parameters of 1 symbolic byte: read, ${sp:=w}, Set"),
+            dict(harness="C13_IFSJoin", bounds="\"$*\" with 2 positional parameters of 1 symbolic byte x IFS {2 symbolic bytes, empty, unset}"),
+            dict(harness="C13_Trim", bounds="% %% # ## x values of 3 bytes over {a,b} x 9 patterns x quoted/unquoted pattern"),
+        ],
+    },
+    "C14": {
+        "quick": [
+            dict(harness="C14_S2", cover=["ifs-unset", "ifs-empty", "ifs-default", "ifs-symbolic"], bounds="words of 2 segments (0..2 symbolic bytes each, quoted or not) x IFS {unset, empty, default, 1..2 symbolic bytes}"),
+            dict(harness="C14_S3", cover=["ifs-unset", "ifs-empty", "ifs-default", "ifs-symbolic"], bounds="words of 3 segments (0..2 symbolic bytes each, quoted or not) x IFS {unset, empty, default, 1..2 symbolic bytes}"),
+            dict(harness="C14_Multibyte", bounds="IFS = é, word with unquoted and quoted é and one symbolic byte"),
+        ],
+        "thorough": [
+            dict(harness="C14_S2", cover=["ifs-unset", "ifs-empty", "ifs-default", "ifs-symbolic"]),
+            dict(harness="C14_S3", cover=["ifs-unset", "ifs-empty", "ifs-default", "ifs-symbolic"]),
+            dict(harness="C14_S4", cover=["ifs-symbolic"], bounds="words of 4 segments (0..1 symbolic byte) x IFS up to 3 symbolic bytes"),
+            dict(harness="C14_S6", cover=["ifs-symbolic"], bounds="words of 6 segments (0..1 symbolic byte) x IFS up to 2 symbolic bytes"),
+            dict(harness="C14_Multibyte"),
+        ],
+    },
     "C19": {
         "quick": [
             dict(harness="C19_Option", bounds="all 2^64 Option values"),
@@ -90,6 +114,10 @@ META = {
                 note="inputs longer than the bounds, code points outside D and the std decoders behind string/[]byte/io.Reader sources (smoke-tested concretely) are outside the claim; goroutines run under the deterministic baton schedule plus a drain phase after return"),
     "C11": dict(text="Eval agrees with a C reference evaluator (precedence, associativity, laziness, effects on a map store, faults) for every 64-bit value of the symbolic operands on all shapes within the bounds; value obligations are discharged as identical terms or by z3. " + BOUNDED,
                 note="reference evaluator applies Go's own * / % << >> (the ALU is the spec); C-undefined cases (MinInt64/-1, shift count >= 64, unsequenced modify+access) are excluded by assumption; strconv.Itoa/ParseInt of a symbolic integer are modelled as an exact decimal round trip; known finding KF-C11-eager-operands"),
+    "C13": dict(text="Expand of directly built ParamExp nodes agrees with the POSIX operator table (value, default, assignment, error, alternative; colon forms; w expanded only when used; positional/special read-only; nounset; $@/$*/$#; ${#p} in characters; % %% # ## against a backtracking matcher) for every value of the symbolic bytes on every cell of the enumerated product. " + BOUNDED,
+                note="values/words are at most 2-3 symbolic ASCII bytes; unquoted cells assume no default-IFS byte in value/word (splitting is C14); pattern removal uses concrete 9 patterns without brackets and values over {a,b} (regexp runs natively on concretised strings)"),
+    "C14": dict(text="Expand in default mode (NoGlob) of words built from quoted/unquoted segments of symbolic bytes, with symbolic IFS, yields exactly the fields of a reference splitter written from the statement (cut at unquoted IFS bytes, drop empty unquoted fields). " + BOUNDED,
+                note="segments <= 2 symbolic ASCII bytes, <= 3 (quick) / 6 (thorough) segments, IFS <= 3 symbolic bytes; multi-byte IFS only through one concrete representative"),
     "C19": dict(text="No panic / non-termination of Pos, End, Fprint (symbolic Config), Expand (symbolic ExpMode and Option), Eval, Match, Glob and Option.String on every feasible path within the bounds; errors are of the documented kinds. " + BOUNDED,
                 note="ASTs come from the parser on bounded inputs (hand-built ASTs are outside); Glob runs against the engine's empty file-system stub; regexp.Compile/regexp matching run natively on concretised patterns/subjects; user.Lookup is a stub that always fails"),
 }
